@@ -298,13 +298,36 @@ fn run_engine(c: &Case) -> Outcome {
     let mut got: Vec<(i64, i64)> = outs.iter().map(OutEv::from_event).map(|o| (o.get_int("a_id").unwrap_or(-1), o.get_int("b_id").unwrap_or(-1))).collect();
     got.sort();
     let mut want: Vec<(i64, i64)> = vec![];
+    let mut capped = false;
+    let mut want_count = 0usize;
     for ex in model(c) {
         match &ex.admissible {
-            None => want.push((ex.start, *ex.kept.last().unwrap())),
-            Some(adm) => want.extend(adm.iter().map(|s| (ex.start, *s.last().unwrap()))),
+            None => {
+                want.push((ex.start, *ex.kept.last().unwrap()));
+                want_count += 1;
+            }
+            Some(adm) => {
+                // the engine's default enumeration cap (10 000 matches per completion) binds for long bursts:
+                // which combinations are emitted is then unspecified, only their number is
+                if adm.len() > 10_000 {
+                    capped = true;
+                }
+                want_count += adm.len().min(10_000);
+                want.extend(adm.iter().map(|s| (ex.start, *s.last().unwrap())));
+            }
         }
     }
     want.sort();
+    if capped {
+        if got.len() != want_count {
+            return Outcome::fail("engine:selfref-capped-count-differs", format!("{}\nexpected {} outputs (default cap 10000 per completion), got {}", src, want_count, got.len()));
+        }
+        let pool: std::collections::BTreeSet<(i64, i64)> = want.iter().cloned().collect();
+        if let Some(bad) = got.iter().find(|g| !pool.contains(g)) {
+            return Outcome::fail("engine:selfref-inadmissible-output", format!("{}\n{:?}", src, bad));
+        }
+        return Outcome::pass().nontrivial(true).class("engine_default_enumeration_cap_hit");
+    }
     if got != want {
         return Outcome::fail(if selfref { "engine:selfref-outputs-differ" } else { "engine:consistent-outputs-differ" }, format!("{}\nexpected (a_id, last b_id) {:?}\ngot {:?}", src, want, got));
     }
